@@ -4,6 +4,7 @@ package main
 
 import (
 	"bufio"
+	"math/big"
 	"encoding/json"
 	"flag"
 	"fmt"
@@ -216,7 +217,107 @@ func (g *G) formatSpec() string {
 	return b.String()
 }
 
+var fixupG *G
+
+// kernelStates steers most rounding-kernel cases into the states the callers produce (the
+// hypotheses of the RoundKernel theorems), where the Spec fixes the result.
+func kernelStates(g *G, op string, sig, args []string) {
+	idx := func(name string) int {
+		for i, s := range sig {
+			if strings.HasSuffix(s, ":"+name) {
+				return i
+			}
+		}
+		return -1
+	}
+	if g.chance(0.15) {
+		return // keep some arbitrary tuples for the model comparison
+	}
+	two110 := new(big.Int).Lsh(big.NewInt(1), 110)
+	if op == "RoundingMode.round" {
+		si, ei, ti, di, shi := idx("sig"), idx("exp"), idx("trunc"), idx("digit"), idx("shift")
+		args[shi] = "T"
+		args[di] = sU64(uint64(g.pick(10)))
+		if g.chance(0.3) {
+			args[di] = sU64(uint64([]int{0, 5, 9, 4}[g.pick(4)]))
+		}
+		args[ti] = sI64(int64(g.pick(3) - 1))
+		var c *big.Int
+		switch g.pick(6) {
+		case 0: // boundaries of the full range
+			c = []*big.Int{new(big.Int).Set(two110), new(big.Int).Add(two110, big.NewInt(1)), new(big.Int).Set(cmax), new(big.Int).Sub(cmax, big.NewInt(1)), pow10(34), new(big.Int).Sub(pow10(34), big.NewInt(1))}[g.pick(6)]
+			args[ei] = sI64(int64(g.pick(12288)))
+		case 1: // minimum exponent, short significand
+			c = g.coef()
+			args[ei] = "0"
+		case 2: // exact short value
+			c = g.coef()
+			args[di], args[ti] = "0", "0"
+			args[ei] = sI64(int64(g.pick(12288)))
+		default: // full significand
+			c = new(big.Int).Rand(g.r, new(big.Int).Sub(cmax, two110))
+			c.Add(c, two110)
+			args[ei] = sI64(int64([]int{0, 1, 6176, 12286, 12287, g.pick(12288)}[g.pick(6)]))
+		}
+		lo, hi := words(c)
+		args[si] = sWords(lo, hi)
+		return
+	}
+	ti, ei := idx("trunc"), idx("exp")
+	if ei >= 0 {
+		switch g.pick(5) {
+		case 0:
+			args[ei] = sI64(int64(-g.pick(60)))
+		case 1:
+			args[ei] = sI64(int64(12287 - g.pick(60) + 20))
+		default:
+			args[ei] = sI64(int64(g.pick(12288)))
+		}
+	}
+	if ti >= 0 {
+		args[ti] = sI64(int64(g.pick(3) - 1))
+		// a sticky flag only comes with a significand that still has digits to drop
+		for i, s := range sig {
+			var n int
+			switch {
+			case strings.HasPrefix(s, "U128:"):
+				n = 2
+			case strings.HasPrefix(s, "U192:"):
+				n = 3
+			case strings.HasPrefix(s, "U256:"):
+				n = 4
+			default:
+				continue
+			}
+			bits := 118 + g.pick(n*64-118)
+			c := new(big.Int).Rand(g.r, new(big.Int).Lsh(big.NewInt(1), uint(bits)))
+			c.SetBit(c, bits, 1)
+			if g.chance(0.3) { // long runs of zeros / nines below the rounding position
+				k := 2 + g.pick(30)
+				m := pow10(k)
+				c.Sub(c, new(big.Int).Mod(c, m))
+				switch g.pick(4) {
+				case 0:
+					c.Add(c, new(big.Int).Div(m, big.NewInt(2)))
+				case 1:
+					c.Add(c, new(big.Int).Sub(m, big.NewInt(1)))
+				case 2:
+					c.Add(c, new(big.Int).Sub(new(big.Int).Div(m, big.NewInt(2)), big.NewInt(1)))
+				}
+			}
+			w := make([]uint64, n)
+			t := new(big.Int).Set(c)
+			for j := 0; j < n; j++ {
+				w[j] = new(big.Int).And(t, new(big.Int).SetUint64(^uint64(0))).Uint64()
+				t.Rsh(t, 64)
+			}
+			args[i] = sWords(w...)
+		}
+	}
+}
+
 func kernelMode(g *G, n int, filter string) {
+	fixupG = g
 	ops := append([]string{}, d128.VerifOps...)
 	sort.Strings(ops)
 	for _, op := range ops {
@@ -318,6 +419,9 @@ func replayMode(lines []string) {
 func fixup(op string, sig, args []string) {
 	if !strings.HasPrefix(op, "RoundingMode.") {
 		return
+	}
+	if fixupG != nil {
+		kernelStates(fixupG, op, sig, args)
 	}
 	zero := false
 	ti := -1
